@@ -150,6 +150,65 @@ func (p *pipeEnd) written() []byte {
 	return out
 }
 
+// livePipe is an in-memory stream that hands every Write call to the reader
+// as one separate chunk (a Read never spans two Write calls).
+type livePipe struct {
+	mu     sync.Mutex
+	cond   *sync.Cond
+	q      [][]byte
+	sizes  []int // size of every Write call, in order
+	all    []byte
+	closed bool
+}
+
+func newLivePipe() *livePipe {
+	p := &livePipe{}
+	p.cond = sync.NewCond(&p.mu)
+	return p
+}
+
+func (p *livePipe) Write(b []byte) (int, error) {
+	p.mu.Lock()
+	defer p.mu.Unlock()
+	if len(b) == 0 {
+		return 0, nil
+	}
+	p.q = append(p.q, append([]byte{}, b...))
+	p.sizes = append(p.sizes, len(b))
+	p.all = append(p.all, b...)
+	p.cond.Broadcast()
+	return len(b), nil
+}
+
+func (p *livePipe) Read(b []byte) (int, error) {
+	p.mu.Lock()
+	defer p.mu.Unlock()
+	for len(p.q) == 0 && !p.closed {
+		p.cond.Wait()
+	}
+	if len(p.q) == 0 {
+		return 0, io.EOF
+	}
+	if len(b) == 0 {
+		return 0, nil
+	}
+	k := copy(b, p.q[0])
+	if k == len(p.q[0]) {
+		p.q = p.q[1:]
+	} else {
+		p.q[0] = p.q[0][k:]
+	}
+	return k, nil
+}
+
+func (p *livePipe) Close() error {
+	p.mu.Lock()
+	p.closed = true
+	p.cond.Broadcast()
+	p.mu.Unlock()
+	return nil
+}
+
 func chunkStyle(c *hx.Ctx) int { return c.Rng.Intn(4) }
 
 func chunksFor(c *hx.Ctx, n int) ([]int, string) {
